@@ -18,7 +18,7 @@ package main
 // decoder packages against a private template cache that has seen exactly the
 // setup datagrams of the case):
 //
-//	x  no message      (Decode returned nil / SFDecode returned an error)
+//	x  no message      (ipfix / v9: Decode returned nil; v5: Decode returned an error; SFDecode returned an error)
 //	t  message, no data (ipfix len(DataSets)==0, v9 DataSets==nil, v5 Flows==nil,
 //	                     sflow no counter and no sample)
 //	m  data, marshal fails
@@ -158,8 +158,11 @@ func pipeClassV9(src int, body []byte, cache netflow9.MemCache) byte {
 }
 
 func pipeClassV5(src int, body []byte) byte {
-	msg, _ := netflow5.NewDecoder(pipeSrcIP(src), append([]byte{}, body...)).Decode()
-	if msg == nil {
+	// NetFlow v5 has no partially decodable datagram (no templates, no sets to skip): "decodes successfully" (C13)
+	// is "Decode reports no error". Until F29 this read `msg == nil`, copied from the worker's own test, and a
+	// datagram shorter than its header announces (a message AND an error) was classed 't' = counted as decoded.
+	msg, err := netflow5.NewDecoder(pipeSrcIP(src), append([]byte{}, body...)).Decode()
+	if msg == nil || err != nil {
 		return 'x'
 	}
 	if msg.Flows == nil {
@@ -751,9 +754,12 @@ func genPipeV5(r *rand.Rand, srcs []int, nData int) (data []pipeToken) {
 			if r.Intn(8) == 0 { // trailing octets are ignored
 				body = append(body, pipeJunk(r, 40)...)
 			}
-		case k < 76: // good header, body cut short
+		case k < 70: // good header, body cut short anywhere
 			body = pipeV5Dgram(r, 1+r.Intn(30), 5)
 			body = body[:24+r.Intn(len(body)-24)]
+		case k < 76: // good header, the last record 1..47 octets short (a datagram cut in transit / a wrong count)
+			body = pipeV5Dgram(r, 1+r.Intn(30), 5)
+			body = body[:len(body)-1-r.Intn(47)]
 		case k < 83: // count out of bounds
 			c := 0
 			if r.Intn(2) == 0 {
